@@ -165,7 +165,8 @@ pub fn replay(args: &[String]) {
 // ------------------------------------------------------------------ recorder --
 const TEXTS: &[&str] = &["main", "feature/X-1", "release/1.2", "007", "a..b", "--", "é", "Ünï/çødé", "1.2", "v1", "HEAD", "",
                          "0", "x_y", "UPPER", "日本", "a1b2c3d4e5f60718", "deadbeefcafe", "0123456789abcdef", "\u{212A}1",
-                         "release/018446744073709551616", "00000000000000000000000001", "v0004294967296", "99999999999999999999999"];
+                         "release/018446744073709551616", "00000000000000000000000001", "v0004294967296", "99999999999999999999999",
+                         "Łódź/ř测"];
 
 fn text_opt(rng: &mut StdRng, p_none: f64, ascii_only: bool) -> Value {
     if rng.gen_bool(p_none) {
